@@ -148,8 +148,35 @@ def run_order(prog, tier, repo):
             nonempty = {m: ks for m, ks in keysets.items() if ks}
             ref = keysets['parsed_modules']
             bad = [m for m in maps if keysets[m] != ref]
+            # ... and on the same paths: wherever parsed_modules is mutated, every trip through that loop iteration (or every
+            # path through the function, outside loops) also mutates each paired map
+            cond = []
             if not bad:
-                res.ok(k2, b.loc(), f'{", ".join(maps)} are {kind.strip(":")}-ed under the same keys ({len(ref)})')
+                heads = {h for (_, h) in cfg.back_edges()}
+                pm_blocks = [bi for bi, t, f in _map_calls(b, (kind,)) if f == 'parsed_modules']
+                for m in maps:
+                    if m == 'parsed_modules':
+                        continue
+                    mb = {bi for bi, t, f in _map_calls(b, (kind,)) if f == m}
+                    for pbi in pm_blocks:
+                        ok_here = False
+                        in_loop = False
+                        for h in heads:
+                            if cfg.can_reach(h, pbi) and cfg.can_reach(pbi, h):
+                                in_loop = True
+                                fwd = cfg.reachable(h, removed_nodes=mb)
+                                if not (pbi in fwd and h in cfg.reachable(pbi, removed_nodes=mb - {pbi})):
+                                    ok_here = True
+                        if not in_loop:
+                            ok_here = cfg.nodes_dominate(mb, pbi) or cfg.nodes_postdominate(mb, pbi)
+                        if not ok_here:
+                            cond.append(m)
+            if not bad and cond:
+                res.violation(k2, b.loc(), f'{b.name}: {", ".join(sorted(set(cond)))} is {kind.strip(":")}-ed only on some of the paths '
+                              f'on which parsed_modules is: on the other paths the module keeps a stale (or no) entry there, so it '
+                              f'is checked against an outdated signature and the stale entry is a GC root nobody marks')
+            elif not bad:
+                res.ok(k2, b.loc(), f'{", ".join(maps)} are {kind.strip(":")}-ed under the same keys ({len(ref)}) on the same paths')
             else:
                 res.violation(k2, b.loc(), f'{b.name}: {", ".join(bad)} {"is" if len(bad) == 1 else "are"} not '
                               f'{kind.strip(":")}-ed under the same key(s) as parsed_modules: after this operation one module '
